@@ -806,10 +806,51 @@ func (e *termEngine) model(fn *ssa.Function) *memModel {
 		w.order = m.index[w.instr]
 		m.writes[w.rootKey] = append(m.writes[w.rootKey], w)
 	}
+	// locals captured by a function literal can be written by any call that
+	// may run that literal: a call of a function value, or of a function that
+	// receives one
+	var captured []*ssa.Alloc
+	for _, b := range fn.Blocks {
+		for _, in := range b.Instrs {
+			if mc, ok := in.(*ssa.MakeClosure); ok {
+				if boundMethodOf(mc.Fn.(*ssa.Function)) != nil {
+					continue
+				}
+				for _, bd := range mc.Bindings {
+					if a, ok := bd.(*ssa.Alloc); ok {
+						captured = append(captured, a)
+					}
+				}
+			}
+		}
+	}
+	mayRunLiteral := func(c *ssa.CallCommon) bool {
+		if c.IsInvoke() {
+			return false
+		}
+		if c.StaticCallee() == nil {
+			if _, isB := c.Value.(*ssa.Builtin); !isB {
+				return true
+			}
+		}
+		for _, a := range c.Args {
+			if _, isFn := a.Type().Underlying().(*types.Signature); isFn {
+				return true
+			}
+		}
+		return false
+	}
 	for _, b := range fn.Blocks {
 		for _, in := range b.Instrs {
 			m.index[in] = n
 			n++
+			if ci, ok := in.(ssa.CallInstruction); ok && len(captured) > 0 && mayRunLiteral(ci.Common()) {
+				if _, isDefer := in.(*ssa.Defer); !isDefer {
+					for _, a := range captured {
+						add(&memWrite{instr: in, root: a, rootKey: e.rootKey(a), opaque: "captured by a function literal that this call may run"})
+					}
+				}
+			}
 			switch in := in.(type) {
 			case *ssa.Store:
 				if isSelfStore(in) {
